@@ -137,6 +137,7 @@ fn execute(bytes: &[u8], export: &Export, args: &[i64], global_names: &[(String,
 }
 
 const MODULE_TAPE: usize = 1100;
+const CONTROL_TAPE: usize = 128;
 
 const ARG_VALUES: &[i64] = &[0, 1, -1, 2, 7, 8, 40, 300, 1100, 2047, 0x7fff_ffff, -0x8000_0000, 0xffff_ffff, i64::MAX, i64::MIN, 65535, 65536, 1 << 32, 5, 13];
 
@@ -167,6 +168,9 @@ fn case(g: &mut Gen) -> Outcome {
     let opts = Opts { max_funcs: 6, export_all: true, recursion: true, vm_version: 2, ..Default::default() };
     // the module is generated from its own stretch of tape so that its structural twin can be
     // regenerated from the same choices
+    // (the choices of exports and arguments come first so that short tapes still vary them)
+    let control = g.bytes(CONTROL_TAPE);
+    let mut cg = Gen::new(&control);
     let module_tape = g.bytes(MODULE_TAPE);
     let m = watgen::generate(&mut Gen::new(&module_tape), &opts);
     let wat_text = m.wat.clone();
@@ -194,15 +198,23 @@ fn case(g: &mut Gen) -> Outcome {
     let twin_instrumented = if m.exports.iter().any(|e| e.straight) { twin(&module_tape, &opts) } else { None };
 
     let n_exports = m.exports.len();
-    let picks = 1 + g.index(3.min(n_exports));
+    let picks = 1 + cg.index(3.min(n_exports));
     let mut any_trap = false;
     let mut any_loop = false;
-    for _ in 0..picks {
-        let e = &m.exports[g.index(n_exports)];
-        let n_vectors = if e.straight { 3 } else { 1 + g.index(3) };
+    let straight: Vec<usize> = (0..n_exports).filter(|i| m.exports[*i].straight).collect();
+    for pick in 0..picks {
+        // the first pick prefers a straight-line export, the second the recursive entry point
+        let e = if pick == 0 && !straight.is_empty() && cg.chance(2, 3) {
+            &m.exports[straight[cg.index(straight.len())]]
+        } else if pick <= 1 && m.exports[0].recursive && cg.chance(1, 2) {
+            &m.exports[0]
+        } else {
+            &m.exports[cg.index(n_exports)]
+        };
+        let n_vectors = if e.straight { 3 } else { 1 + cg.index(3) };
         let mut straight_gas: Option<(u64, Vec<i64>)> = None;
         for _ in 0..n_vectors {
-            let args = gen_args(g, e.sig.params.len());
+            let args = gen_args(&mut cg, e.sig.params.len());
             let ctx = |what: &str| format!("{}\nexport {} args {:?}\n{}", what, e.name, args, m.wat);
             let a = match execute(&original, e, &args, &m.globals) {
                 Ok(r) => r,
@@ -381,7 +393,7 @@ pub fn check() -> Check {
     )
     .assume("wasmi 0.39.1 (the interpreter the engine itself uses) is the reference semantics for the uninstrumented module; host functions are deterministic stubs")
     .assume("the stack limiter is stricter than wasmi's own recursion limit by design: for recursion deeper than 50 frames only 'both trap, or only the instrumented run traps in the limiter' is required")
-    .part(Part::new("differential", 6_000, 300_000, 1300, case))
+    .part(Part::new("differential", 6_000, 300_000, 1228, case))
     .part(Part::new("engine", 1_500, 60_000, 1200, engine_case))
     .min_nontrivial_pct(20.0)
 }
